@@ -99,7 +99,7 @@ def instances(tier, seed):
                 for m in range(0, n + 1):
                     add(m, None)
     # assume/guarantee link: the field-name alphabet the conversions rely on (Tag::try_from(..).unwrap()) is what the real parser delivers
-    out.append({'entry': 'parser-lemma', 'mode': 'lemma', 't': 'field', 'flav': 'sync', 'seg': 'whole', 'cap': 4096, 'v': 1})
+    out.append({'entry': 'parser-lemma', 'mode': 'lemma', 't': 'keys', 'flav': 'sync', 'seg': 'whole', 'cap': 4096, 'v': 1})
     out.append({'entry': 'parser-lemma', 'mode': 'lemma', 't': 'list', 'flav': 'async', 'seg': 'bytes', 'cap': 8, 'v': 1})
     for kind in ('vec', 'tuple'):
         for n in (1, 2, 3):
